@@ -20,7 +20,11 @@ OK == 0  INTERNAL == 13  OUT_OF_RANGE == 11  RESOURCE_EXHAUSTED == 8
 IsMsg(it) == it.k = "msg"
 MsgItems(items) == SelectSeq(items, LAMBDA it : it.k # "pend")      \* messages and errors, in order
 \* index (in MsgItems) of the first item that ends the call: a source error, or an oversize message
-FirstStop(mi, limit) == SelectInSeq(mi, LAMBDA it : it.k \in {"err", "encfail"} \/ (it.k = "msg" /\ Len(it.ser) > limit))
+\* the length the encoding limit is compared with is the on-the-wire payload length: the serialisation itself, or - when the
+\* frame is compressed, which this specification does not compute - the length `wl` the stimulus states for it (a bound that
+\* decides the comparison: incompressible data cannot shrink, a run of zeros shrinks below any limit used)
+WireLen(it) == IF "wl" \in DOMAIN it THEN it.wl ELSE Len(it.ser)
+FirstStop(mi, limit) == SelectInSeq(mi, LAMBDA it : it.k \in {"err", "encfail"} \/ (it.k = "msg" /\ WireLen(it) > limit))
 Good(items, limit) == LET mi == MsgItems(items) f == FirstStop(mi, limit)
                       IN IF f = 0 THEN mi ELSE SubSeq(mi, 1, f - 1)
 \* final status code of the stream
@@ -75,9 +79,9 @@ HeaderErr == {"bad_flag", "flag_noenc", "too_large", "undecodable"}
 Trunc == {"trunc_hdr", "trunc_body"}
 Bad(view) == IF view # <<>> /\ view[Len(view)].kind # "ok" THEN view[Len(view)].kind ELSE "none"
 NOk(view) == IF Bad(view) = "none" THEN Len(view) ELSE Len(view) - 1
-\* tail \in {"none_req","none_resp","trailers_ok","trailers_err","body_err"}
+\* tail \in {"none_req","none_resp","trailers_ok","trailers_err","body_err","body_cancel_req"}
 MustFail(view, tail) == Bad(view) \in HeaderErr \/ tail \in {"body_err", "trailers_err"}
-MayFail(view, tail)  == MustFail(view, tail) \/ Bad(view) \in Trunc \/ tail = "none_resp"
+MayFail(view, tail)  == MustFail(view, tail) \/ Bad(view) \in Trunc \/ tail \in {"none_resp", "body_cancel_req"}
 
 DecInit == [k |-> 0, phase |-> "streaming"]
 \* r = [r |-> "msg", ser] | [r |-> "err", code] | [r |-> "end"] | [r |-> "pending"] | [r |-> "stuck"]
